@@ -31,7 +31,10 @@ Buildable(c) == Len(Effective(c)) > 0
 Full    == TablesUpTo(FullLen)
 Short   == { t \in TablesUpTo(2) \ Full : Len(t) >= 1 }
 Long    == TablesUpTo(MaxLen) \ TablesUpTo(2)
-Drawn   == RandomSubset(NShort, Short) \cup RandomSubset(NLong, Long)
+\* order family (always written): a missing-source bind -- dropped by FilterNotExist, which must keep the order
+\* of the rest -- before / between / after a parent and the child nested in it
+OrderFam == UNION { { <<"noent", pc[1], pc[2]>>, <<pc[1], "noent", pc[2]>>, <<pc[1], pc[2], "noent">> } : pc \in NestPairs }
+Drawn   == RandomSubset(NShort, Short) \cup RandomSubset(NLong, Long) \cup OrderFam
 
 Cfgs ==      { ForkOf(t) : t \in Full \cup Drawn }
         \cup { c \in { ContOf(t, o) : t \in Full, o \in ContOpts } : Buildable(c) }
